@@ -405,7 +405,7 @@ class IKRun:
             if op in ("IK", "cIK", "IKFree"):
                 goal, G, reachable = self.goal_tm(st["goal"])
                 start = None if st.get("start") is None else np.array(st["start"], float)
-                info = {"G": G, "reachable": reachable, "pre_coherent": self.coherent() <= 1e-7,
+                info = {"G": G, "reachable": reachable, "pre_coherent": self.coherent() <= 1e-7, "goal_obj": goal,
                         "start": None if start is None else start.copy(),
                         "pre_theta": np.array(arm._theta, float).copy(),
                         "mins": np.array(arm.joint_mins, float).copy(), "maxs": np.array(arm.joint_maxs, float).copy(),
@@ -449,6 +449,7 @@ class IKRun:
         if op in ("IK", "cIK", "IKFree"):
             self._oracle(st, ret, exc, info, len(draws))
             self._alias_check(st, ret, exc)
+            self._goal_alias_check(st, exc, info)
         else:
             if exc is not None:
                 self.probes["exc_%s_%s" % (op, type(exc).__name__)] += 1
@@ -682,6 +683,28 @@ class IKRun:
                              "alias": True, "success": bool(success)})
         self.probes["returned_vector_edited_by_caller"] += 1
 
+    def _goal_alias_check(self, st, exc, info):
+        """The caller owns its goal object as well: moving it afterwards (re-using one tm for the next way-point) must
+        not move the arm's reported tool pose."""
+        goal = info.get("goal_obj")
+        if exc is not None or goal is None or st["goal"]["k"] == "current":
+            return
+        arm = self.arm
+        before = np.array(arm.getEEPos().gTM(), float).copy()
+        try:
+            goal.TAA[0, 0] += 0.731
+            goal.TAAtoTM()
+        except Exception:
+            return
+        after = np.array(arm.getEEPos().gTM(), float)
+        if float(np.max(np.abs(after - before))) > 1e-12:
+            raise Violation("K-state", "%s keeps the caller's goal object as the arm's reported tool pose: after the caller moved "
+                            "its goal by 0.731 the arm reports a pose %.3e away from the pose of its stored joints" % (
+                                st["op"], self.coherent()),
+                            {"op": st["op"], "path": "free" if st.get("protect") else ("ikfree" if st["op"] == "IKFree" else "constrained"),
+                             "alias": "goal"})
+        self.probes["goal_object_moved_by_caller"] += 1
+
     def _local_applicable(self, st, info):
         g = st["goal"]
         if g["k"] != "fk" or info["start"] is None:
@@ -751,9 +774,15 @@ def _chain(r):
     L = r.uniform(0.05, 1.0)
     ee = [round(p[j] + L * d[j], 4) for j in range(3)] + ([0.0, 0.0, 0.0] if r.random() < 0.6 else [round(r.uniform(-1, 1), 3) for _ in range(3)])
     spec = {"kind": "chain", "axes": axes, "points": pts, "ee": ee}
-    # Prismatic joints are supported by build_arm (spec["prismatic"]) but not generated: Arm.FK / Arm.IK wrap every
-    # joint value with angleMod, which turns a prismatic travel of 6.39 m into 0.10 m -- a forward-kinematics state
-    # defect (C05's business) that would drown this property's findings (tried; see DESIGN.md section 10).
+    # Prismatic joints: Arm.FK / Arm.IK(protect=True) wrap every joint value with angleMod, which turns a prismatic travel
+    # of 6.39 m into 0.10 m -- a forward-kinematics state defect (C05's business; DESIGN.md section 10).  Prismatic joints
+    # are therefore generated only with a travel of +-4 (< 2*pi, so the wrap never fires) and only solved on the
+    # limit-respecting path (gen_trace sets p_protect = 0 for these arms).
+    if r.random() < 0.2:
+        mask = [r.random() < 0.35 for _ in range(n)]
+        if not any(mask):
+            mask[r.randrange(n)] = True
+        spec["prismatic"] = mask
     return spec
 
 
@@ -785,6 +814,13 @@ def gen_trace(seed):
             spec["maxs"] = [round(r.uniform(0.4, 3.0), 3) for _ in range(n)]
     if kind == "chain":
         n = len(spec["axes"])
+        if spec.get("prismatic"):
+            lo = list(spec.get("mins") or [-math.pi] * n)
+            hi = list(spec.get("maxs") or [math.pi] * n)
+            for j_ in range(n):
+                if spec["prismatic"][j_]:
+                    lo[j_], hi[j_] = -4.0, 4.0        # a linear axis with +-4 of travel
+            spec["mins"], spec["maxs"] = lo, hi
         mins = np.array(spec.get("mins") or [-math.pi] * n, float)
         maxs = np.array(spec.get("maxs") or [math.pi] * n, float)
     else:
@@ -795,6 +831,9 @@ def gen_trace(seed):
     p_protect = r.choice([0.0, 0.3, 0.3, 1.0])
     iters_mode = pick_weighted(r, [("tiny", 1.5), ("small", 2.0), ("mid", 2.0), ("generous", 3.0)])
     restart_mode = pick_weighted(r, [("natural", 3.0), ("scripted", 4.0), ("off", 1.5)])
+    has_prismatic = bool(spec.get("prismatic"))
+    if has_prismatic:
+        p_protect = 0.0
     # a correlated corner the independent knobs meet too rarely: coarse or unequal tolerances, a small iteration
     # budget and restarts that end "almost there" before one succeeds (near miss, then success)
     campaign = pick_weighted(r, [("none", 7.0), ("nearmiss", 1.0)])
@@ -925,7 +964,7 @@ def gen_trace(seed):
             n_ik += 1
         elif k == "FK":
             st = {"op": "FK", "theta": [round(x, 6) for x in in_limits(1.0)]}
-            if ro.random() < 0.25:
+            if ro.random() < 0.25 and not has_prismatic:
                 # unprotected FK may park the arm outside its limits
                 j = ro.randrange(n)
                 st["theta"][j] = float(maxs[j] + ro.uniform(0.05, 0.6))
@@ -949,7 +988,7 @@ def gen_trace(seed):
                 maxs = maxs * shrink
             else:
                 # move the window (a joint-zero offset): limits that are no longer symmetric about zero
-                shift = np.array([ro.uniform(-1.5, 1.5) for _ in range(n)])
+                shift = np.array([0.0 if (has_prismatic and spec["prismatic"][j_]) else ro.uniform(-1.5, 1.5) for j_ in range(n)])
                 mins = mins + shift
                 maxs = maxs + shift
             steps.append({"op": "limits", "mins": [float(x) for x in mins], "maxs": [float(x) for x in maxs]})
@@ -998,7 +1037,7 @@ EXPECTED_PROBES = ["success_first_attempt", "success_on_restart", "success_on_re
                    "tol_pos_gt_rot", "tol_rot_gt_pos", "goal_on_limit_boundary", "goal_beyond_reach",
                    "unreachable_goal_reported_failure", "solve_after_move_or_retool", "start_from_current_state",
                    "local_clause_applicable", "move_stationary_internal_ik", "goal_is_current_reported_pose",
-                   "goal_is_stale_reported_pose"]
+                   "goal_is_stale_reported_pose", "arm_with_prismatic_joint", "returned_vector_edited_by_caller", "goal_object_moved_by_caller"]
 
 
 def warmup():
